@@ -1,17 +1,24 @@
 (* C02, properties: the block theorem.  A file that is a sequence of blocks
-     - an entity line  key sep value newline  (one-line value), optionally preceded
-       directly by comment lines (its attached comment),
-     - a standalone comment (comment lines), followed by a blank block with a newline
-       or by the end of the file,
-     - a run of whitespace (blank lines, indentation),
-   parses to exactly the entries computed from the blocks by [entries_of].
+     - an entity  key sep value newline , optionally preceded directly by comment lines
+       (its attached comment); the value may continue over several physical lines (a line
+       ending in an odd number of backslashes continues) and its last line may end in
+       escaped backslashes; the last block of the file may lack its final newline,
+     - a standalone comment (comment lines), followed by a whitespace block that contains
+       a newline or by the end of the file,
+     - a run of whitespace (blank lines, indentation: blanks, tabs, CR, LF),
+   parses to exactly the entries computed from the blocks by [entries_of]
+   ([blocks_properties]); the entities are the records, the comments the comment blocks,
+   and there is no Junk ([C02_roundtrip_properties_multi]).
+   Not covered: junk regions; blanks between the value and its newline; indentation
+   between an attached comment and its key; a comment without final newline at the end
+   of the file; the License rule (that is C02_license_properties).
    Regex-specific: follows the engine through the generated expressions of the
-   properties parser at an arbitrary offset (Proofs/C02BlocksRx.v). *)
+   properties parser at an arbitrary offset (Proofs/C02BlocksRx.v, C02BlocksVal.v). *)
 From Coq Require Import NArith List Bool Arith Lia.
 From CL Require Import Base.Sx Base.Res Base.Str Regex.Rx Regex.RxLemmas Model.Entry Model.Parse
   Model.ParseFormats Generated.RxParser Proofs.UnescapeProofs
   Proofs.ClassLoop Proofs.ClassLoop2 Proofs.C02Props Proofs.WalkProofs Proofs.C02Roundtrip
-  Proofs.C02BlocksRx.
+  Proofs.C02BlocksRx Proofs.C02BlocksVal.
 Import ListNotations.
 
 Local Arguments Nat.ltb : simpl never.
@@ -20,6 +27,7 @@ Local Arguments Nat.eqb : simpl never.
 Local Arguments N.eqb : simpl never.
 Local Arguments N.leb : simpl never.
 Local Arguments chr_ok : simpl never.
+Local Arguments vraw : simpl never.
 
 (* ---- blocks --------------------------------------------------------------------------------- *)
 (* a comment line [cline]: the marker (# or !) and the text after it, without the newline;
@@ -27,14 +35,21 @@ Local Arguments chr_ok : simpl never.
 Inductive block :=
 | BBlank (w : str)                                   (* whitespace: blanks, tabs, CR, LF *)
 | BComment (cs : list cline)                         (* standalone comment lines *)
-| BEntity (cs : list cline) (key b1 : str) (sc : N) (b2 raw : str).
-                                                     (* attached comment lines, then key sep raw LF *)
+| BEntity (cs : list cline) (key b1 : str) (sc : N) (b2 : str) (conts : list str) (lastl : str)
+          (nl : bool).
+    (* attached comment lines, then  key sep value LF ; the value is the physical lines
+       [conts] (each ends in an odd number of backslashes and continues on the next line)
+       and the last line [lastl]: its text is [vraw conts lastl] (C02BlocksVal.v);
+       [nl = false]: the final newline is missing (only at the end of the file) *)
+
+Definition eol (nl : bool) : str := if nl then [10%N] else [].
 
 Definition text (b : block) : str :=
   match b with
   | BBlank w => w
   | BComment cs => ctext cs
-  | BEntity cs key b1 sc b2 raw => ctext cs ++ key ++ b1 ++ sc :: b2 ++ raw ++ [10%N]
+  | BEntity cs key b1 sc b2 conts lastl nl =>
+      ctext cs ++ key ++ b1 ++ sc :: b2 ++ vraw conts lastl ++ eol nl
   end.
 
 Definition is_nil {A} (l : list A) : bool := match l with [] => true | _ => false end.
@@ -43,14 +58,15 @@ Definition legal_blockb (b : block) : bool :=
   match b with
   | BBlank w => negb (is_nil w) && forallb (fun c => mem c WS) w
   | BComment cs => negb (is_nil cs) && forallb legal_cline cs
-  | BEntity cs key b1 sc b2 raw =>
-      forallb legal_cline cs && legal_key key && legal_sep b1 sc b2 && legal_raw1 raw
+  | BEntity cs key b1 sc b2 conts lastl _ =>
+      forallb legal_cline cs && legal_key key && legal_sep b1 sc b2 && legal_value conts lastl
   end.
 Definition legal_block (b : block) : Prop := legal_blockb b = true.
 
 (* local separation: a standalone comment is followed by the end of the file or by a
    whitespace block that contains a newline (anything else would merge with it or make
-   it the attached comment of what follows) *)
+   it the attached comment of what follows); an entity without its final newline is the
+   last block.  Whitespace blocks may be adjacent: they merge into one entry. *)
 Fixpoint separatedb (bs : list block) : bool :=
   match bs with
   | [] => true
@@ -60,6 +76,7 @@ Fixpoint separatedb (bs : list block) : bool :=
       | BBlank w :: _ => mem 10%N w
       | _ => false
       end && separatedb rest
+  | BEntity _ _ _ _ _ _ _ nl :: rest => (nl || is_nil rest) && separatedb rest
   | _ :: rest => separatedb rest
   end.
 
@@ -67,7 +84,7 @@ Fixpoint separatedb (bs : list block) : bool :=
    an entity whose attached comment contains "License" *)
 Definition license_okb (bs : list block) : bool :=
   match bs with
-  | BEntity cs _ _ _ _ _ :: _ => negb (contains s_License (comment_val (COffset 1) (cbody cs)))
+  | BEntity cs _ _ _ _ _ _ _ :: _ => negb (contains s_License (comment_val (COffset 1) (cbody cs)))
   | _ => true
   end.
 
@@ -89,17 +106,17 @@ Fixpoint ents (off w : nat) (bs : list block) : list entry :=
       let a := off + w in
       let e := a + length (cbody cs) in
       flush off w ++ mk_comment (a, e) :: ents e 1 rest
-  | BEntity cs key b1 sc b2 raw :: rest =>
+  | BEntity cs key b1 sc b2 conts lastl nl :: rest =>
       let a := off + w in
       let k := a + length (ctext cs) in
       let ke := k + length key in
       let v := ke + length b1 + 1 + length b2 in
-      let e := v + length raw in
+      let e := v + length (vraw conts lastl) in
       flush off w ++
       mkentry KEntity (k, e) (Some (k, ke)) (Some (v, e))
               (match cs with [] => None | _ => Some (a, k - 1) end)
               (match cs with [] => None | _ => Some (k - 1, k) end)
-      :: ents e 1 rest
+      :: ents e (length (eol nl)) rest
   end.
 
 Definition entries_of (bs : list block) : list entry := ents 0 0 bs.
@@ -109,10 +126,16 @@ Definition file_text (bs : list block) : str := concat (map text bs).
 (* ---- sanity: the statement on concrete files, by evaluation --------------------------------- *)
 Definition A (l : list nat) : str := map N.of_nat l.
 (*  k=v  *)
-Definition ex_e1 : block := BEntity [] (A [107]) [] 61%N [] (A [118]).
+Definition ex_e1 : block := BEntity [] (A [107]) [] 61%N [] [] (A [118]) true.
 (*  #c1 / !c2 / a b = x y  *)
 Definition ex_e2 : block :=
-  BEntity [(35%N, A [99; 49]); (33%N, A [99; 50])] (A [97; 32; 98]) (A [32]) 61%N (A [32]) (A [120; 32; 121]).
+  BEntity [(35%N, A [99; 49]); (33%N, A [99; 50])] (A [97; 32; 98]) (A [32]) 61%N (A [32]) [] (A [120; 32; 121]) true.
+(*  k : a\ / <blank>b\\\ / c\\   (two continuation lines, the last line ends in an escaped backslash) *)
+Definition ex_e3 : block :=
+  BEntity [] (A [107]) (A [32]) 58%N (A [32]) [A [97; 92]; A [32; 98; 92; 92; 92]] (A [99; 92; 92]) true.
+(*  the same without the final newline  *)
+Definition ex_e4 : block :=
+  BEntity [(35%N, A [99])] (A [107]) (A [32]) 58%N (A [32]) [A [97; 92]] (A [32; 99; 92; 92]) false.
 (*  # standalone  *)
 Definition ex_c : block := BComment [(35%N, A [32; 115]); (35%N, [])].
 Definition ex_b : block := BBlank (A [10]).
@@ -121,6 +144,19 @@ Definition ex_b2 : block := BBlank (A [32; 10; 9]).
 Example ex_entity_lines : let bs := [ex_e1; ex_e1; ex_e2] in
   Forall legal_block bs /\ adjacent_ok bs /\ walk_properties (file_text bs) = Ok (entries_of bs).
 Proof. split; [repeat constructor|]. split; vm_compute; reflexivity. Qed.
+
+Example ex_continuation : let bs := [ex_e3; ex_e1; ex_b; ex_e3] in
+  Forall legal_block bs /\ adjacent_ok bs /\ walk_properties (file_text bs) = Ok (entries_of bs) /\
+  map (fun e => (e_kind e, e_span e, e_val e)) (entries_of bs) =
+  [(KEntity, (0, 16), Some (4, 16)); (KWhitespace, (16, 17), Some (16, 17));
+   (KEntity, (17, 20), Some (19, 20)); (KWhitespace, (20, 22), Some (20, 22));
+   (KEntity, (22, 38), Some (26, 38)); (KWhitespace, (38, 39), Some (38, 39))].
+Proof. split; [repeat constructor|]. split; [vm_compute; reflexivity|]. split; vm_compute; reflexivity. Qed.
+
+Example ex_no_final_newline : let bs := [ex_e1; ex_c; ex_b; ex_e4] in
+  Forall legal_block bs /\ adjacent_ok bs /\ walk_properties (file_text bs) = Ok (entries_of bs) /\
+  adjacent_okb [ex_e4; ex_b] = false.
+Proof. split; [repeat constructor|]. split; [vm_compute; reflexivity|]. split; vm_compute; reflexivity. Qed.
 
 Example ex_all_kinds : let bs := [ex_b; ex_c; ex_b2; ex_b; ex_e2; ex_b; ex_e1; ex_e2; ex_c; ex_b; ex_e1; ex_b2; ex_c] in
   Forall legal_block bs /\ adjacent_ok bs /\ walk_properties (file_text bs) = Ok (entries_of bs) /\
@@ -135,7 +171,7 @@ Proof. split; [repeat constructor|]. split; [vm_compute; reflexivity|]. split; v
    with the word is fine *)
 Definition ex_lic : list cline := [(35%N, 32%N :: s_License)].
 Example ex_license_needed :
-  let bs := [BEntity ex_lic (A [107]) [] 61%N [] (A [118])] in
+  let bs := [BEntity ex_lic (A [107]) [] 61%N [] [] (A [118]) true] in
   Forall legal_block bs /\ adjacent_okb bs = false /\ walk_properties (file_text bs) <> Ok (entries_of bs).
 Proof. split; [repeat constructor|]. split; [vm_compute; reflexivity|]. vm_compute. discriminate. Qed.
 Example ex_license_standalone :
@@ -173,10 +209,14 @@ Proof.
   rewrite omatch_ws_run by auto. reflexivity.
 Qed.
 
+Ltac norm_app := repeat (progress (rewrite <- ?app_assoc; cbn [app])).
+
 (* ---- step: key and value ------------------------------------------------------------------------ *)
-Lemma entity_tail : forall (P : str) c0 ktl b1 sc b2 raw rest cc wsp dflt,
-  legal_key (c0 :: ktl) = true -> legal_sep b1 sc b2 = true -> legal_raw1 raw = true ->
-  let s := P ++ c0 :: ktl ++ b1 ++ sc :: b2 ++ raw ++ 10%N :: rest in
+Lemma entity_tail : forall (P : str) c0 ktl b1 sc b2 conts lastl T cc wsp dflt,
+  legal_key (c0 :: ktl) = true -> legal_sep b1 sc b2 = true -> legal_value conts lastl = true ->
+  tail_ok T ->
+  let raw := vraw conts lastl in
+  let s := P ++ c0 :: ktl ++ b1 ++ sc :: b2 ++ raw ++ T in
   let v := length P + S (length ktl) + length b1 + 1 + length b2 in
   match omatch rx_props_key s (length P) with
   | Some k =>
@@ -192,24 +232,37 @@ Lemma entity_tail : forall (P : str) c0 ktl b1 sc b2 raw rest cc wsp dflt,
   mkentry KEntity (length P, v + length raw) (Some (length P, length P + S (length ktl)))
           (Some (v, v + length raw)) cc wsp.
 Proof.
-  intros P c0 ktl b1 sc b2 raw rest cc wsp dflt Hk Hs Hr s v.
-  destruct (raw_facts 0%N [] [] 0%N [] raw Hr) as [R1 [R2 [R3 R4]]].
-  assert (R2' : head_is (fun c => mem c BL) (raw ++ 10%N :: rest) = false).
-  { destruct raw as [|r0 raw']; [reflexivity|exact R2]. }
+  intros P c0 ktl b1 sc b2 conts lastl T cc wsp dflt Hk Hs Hr HT raw s v.
+  unfold legal_value in Hr. apply andb_true_iff in Hr. destruct Hr as [Hr Hhead].
+  apply andb_true_iff in Hr. destruct Hr as [Hconts Hlast].
+  destruct (last_facts lastl Hlast) as [L1 [L2 [L3 L4]]].
+  assert (R2' : head_is (fun c => mem c BL) (raw ++ T) = false).
+  { apply negb_true_iff in Hhead. fold raw in Hhead.
+    destruct raw as [|r0 raw']; [|exact Hhead].
+    destruct HT as [->|[X ->]]; reflexivity. }
   unfold s at 1. rewrite omatch_key by auto. fold v. cbn [m_end m_start].
   set (A0 := P ++ c0 :: ktl ++ b1 ++ sc :: b2).
-  assert (Es : s = A0 ++ raw ++ 10%N :: rest).
-  { unfold s, A0. rewrite <- app_assoc. simpl. f_equal. f_equal. rewrite <- !app_assoc. simpl.
-    reflexivity. }
+  assert (Es : s = A0 ++ vpre conts ++ lastl ++ T).
+  { unfold s, A0, raw, vraw. norm_app. reflexivity. }
+  assert (Es' : s = (A0 ++ vpre conts) ++ lastl ++ T)
+    by (rewrite Es, <- app_assoc; reflexivity).
   assert (Ev : v = length A0).
   { unfold v, A0. rewrite !app_length. simpl. rewrite !app_length. simpl. lia. }
-  assert (El : value_loop rx_props_escaped_end (S (length s)) s v v = (v + length raw, v)).
-  { simpl value_loop. rewrite Es, Ev, find_char_gen by exact R1.
-    rewrite ee_search_none_gen by auto. reflexivity. }
+  assert (Er : length raw = length (vpre conts) + length lastl)
+    by (unfold raw, vraw; apply app_length).
+  assert (El : value_loop rx_props_escaped_end (S (length s)) s v v =
+               (v + length raw, v + length (vpre conts))).
+  { rewrite Es at 2. rewrite Ev, value_loop_tail; auto.
+    - rewrite Er. f_equal. lia.
+    - rewrite Es, !app_length. pose proof (ctext_length_ge []).
+      assert (length conts <= length (vpre conts)).
+      { clear. induction conts as [|l c IH]; [simpl; lia|]. rewrite vpre_cons, app_length. simpl. lia. }
+      lia. }
   rewrite El. cbv beta iota zeta.
-  destruct (tw_search_gen A0 raw rest R1 R4) as [x [X1 X2]].
-  assert (X : osearch rx_props_trailing_ws s v = Some x) by (rewrite Es, Ev; exact X1).
-  rewrite X, X2, <- Ev.
+  destruct (tw_search_tail (A0 ++ vpre conts) lastl T HT L2 L4) as [x [X1 X2]].
+  assert (X : osearch rx_props_trailing_ws s (v + length (vpre conts)) = Some x).
+  { rewrite Es', Ev, <- app_length. exact X1. }
+  rewrite X, X2, app_length, <- Ev, <- Nat.add_assoc, <- Er.
   unfold group. cbn [m_caps get_cap]. unfold g_props_key_key.
   replace (Nat.eqb 1 1) with true by reflexivity. reflexivity.
 Qed.
@@ -222,11 +275,12 @@ Lemma match_ne : forall {A B : Type} (l : list A) (x : B), l <> [] ->
   match l with [] => None | _ :: _ => Some x end = Some x.
 Proof. intros A B [|c l] x H; [contradiction|reflexivity]. Qed.
 
-Lemma gn_entity : forall (a : str) cs c0 ktl b1 sc b2 raw rest,
+Lemma gn_entity : forall (a : str) cs c0 ktl b1 sc b2 conts lastl T,
   forallb legal_cline cs = true -> legal_key (c0 :: ktl) = true -> legal_sep b1 sc b2 = true ->
-  legal_raw1 raw = true ->
+  legal_value conts lastl = true -> tail_ok T ->
   (a = [] -> contains s_License (comment_val (COffset 1) (cbody cs)) = false) ->
-  let s := a ++ ctext cs ++ c0 :: ktl ++ b1 ++ sc :: b2 ++ raw ++ 10%N :: rest in
+  let raw := vraw conts lastl in
+  let s := a ++ ctext cs ++ c0 :: ktl ++ b1 ++ sc :: b2 ++ raw ++ T in
   let k := length a + length (ctext cs) in
   let v := k + S (length ktl) + length b1 + 1 + length b2 in
   gn_properties s (length a) =
@@ -234,9 +288,9 @@ Lemma gn_entity : forall (a : str) cs c0 ktl b1 sc b2 raw rest,
     (match cs with [] => None | _ => Some (length a, k - 1) end)
     (match cs with [] => None | _ => Some (k - 1, k) end).
 Proof.
-  intros a cs c0 ktl b1 sc b2 raw rest Hcs Hk Hs Hr Hlic s k v.
+  intros a cs c0 ktl b1 sc b2 conts lastl T Hcs Hk Hs Hr HT Hlic raw s k v.
   destruct (c0_facts c0 ktl Hk) as [C1 C2].
-  set (X := c0 :: ktl ++ b1 ++ sc :: b2 ++ raw ++ 10%N :: rest) in *.
+  set (X := c0 :: ktl ++ b1 ++ sc :: b2 ++ raw ++ T) in *.
   assert (HX1 : head_is (fun c => mem c CM) X = false) by exact C1.
   assert (HX2 : head_is (fun c => mem c WS) X = false) by exact C2.
   assert (Hcase : cs = [] \/ cs <> []) by (destruct cs; [left; reflexivity|right; discriminate]).
@@ -247,7 +301,7 @@ Proof.
     assert (Ek : k = length a) by (unfold k; simpl; lia).
     unfold gn_properties, get_next_properties.
     rewrite Es, omatch_comment_none, omatch_ws_none by auto.
-    cbv beta iota zeta. unfold v. rewrite Ek. unfold X. apply entity_tail; auto.
+    cbv beta iota zeta. unfold v. rewrite Ek. unfold X, raw. apply entity_tail; auto.
   - rewrite !(match_ne cs) by exact Hne.
     set (L := a ++ cbody cs). set (P := a ++ ctext cs).
     assert (Es1 : s = a ++ cbody cs ++ [10%N] ++ X).
@@ -273,7 +327,7 @@ Proof.
     rewrite Ec. cbn [m_start m_end]. rewrite Lic. cbv beta iota zeta. cbn [m_start m_end].
     rewrite Ew. cbn [m_start m_end]. rewrite Ect. cbv beta iota zeta. cbn [mspan m_start m_end].
     replace (k - 1) with (length L) by lia. rewrite Ekp.
-    unfold v. rewrite Ekp, Es3. unfold X. apply entity_tail; auto.
+    unfold v. rewrite Ekp, Es3. unfold X, raw. apply entity_tail; auto.
 Qed.
 
 (* ---- step: a standalone comment ----------------------------------------------------------------- *)
@@ -362,7 +416,7 @@ Definition nonblank_head (bs : list block) : Prop :=
 Lemma ents_flush : forall bs off w, nonblank_head bs ->
   ents off w bs = flush off w ++ ents (off + w) 0 bs.
 Proof.
-  intros [|[x|cs|cs key b1 sc b2 raw] rest] off w H; try contradiction; simpl;
+  intros [|[x|cs|cs key b1 sc b2 conts lastl nl] rest] off w H; try contradiction; simpl;
     rewrite ?Nat.add_0_r, ?app_nil_r; reflexivity.
 Qed.
 
@@ -409,8 +463,6 @@ Proof.
   - rewrite cbody_cons, app_length. unfold cline_text. simpl. lia.
 Qed.
 
-Ltac norm_app := repeat (progress (rewrite <- ?app_assoc; cbn [app])).
-
 Lemma walk_ents : forall bs, Forall legal_block bs -> separatedb bs = true ->
   forall a w, forallb (fun c => mem c WS) w = true -> stmt bs a w.
 Proof.
@@ -418,7 +470,7 @@ Proof.
   - apply lift_flush; [exact I|reflexivity|].
     intros a _ fuel Hf. simpl. apply walk_loop_done. rewrite !app_length. simpl. lia.
   - inversion Hleg as [|b' rest' Hb Hrest]; subst b' rest'.
-    destruct b as [x|cs|cs key b1 sc b2 raw].
+    destruct b as [x|cs|cs key b1 sc b2 conts lastl nl].
     + (* whitespace: joins what is pending *)
       intros a w Hw Hlic fuel Hf. simpl in Hsep.
       unfold legal_block in Hb. cbn [legal_blockb] in Hb. apply andb_true_iff in Hb. destruct Hb as [Hx1 Hx2].
@@ -459,12 +511,14 @@ Proof.
     + (* an entity line *)
       unfold legal_block in Hb. cbn [legal_blockb] in Hb. apply andb_true_iff in Hb. destruct Hb as [Hb Hr].
       apply andb_true_iff in Hb. destruct Hb as [Hb Hs]. apply andb_true_iff in Hb.
-      destruct Hb as [Hcs Hk]. simpl in Hsep.
+      destruct Hb as [Hcs Hk]. simpl in Hsep. apply andb_true_iff in Hsep.
+      destruct Hsep as [Hnl Hsep].
       destruct key as [|c0 ktl]; [discriminate|].
       destruct (c0_facts c0 ktl Hk) as [_ C2].
-      assert (Etxt : forall Y, text (BEntity cs (c0 :: ktl) b1 sc b2 raw) ++ Y =
-                     ctext cs ++ c0 :: ktl ++ b1 ++ sc :: b2 ++ raw ++ 10%N :: Y).
-      { intros Y. cbn [text]. norm_app. reflexivity. }
+      set (raw := vraw conts lastl).
+      assert (Etxt : forall Y, text (BEntity cs (c0 :: ktl) b1 sc b2 conts lastl nl) ++ Y =
+                     ctext cs ++ c0 :: ktl ++ b1 ++ sc :: b2 ++ raw ++ eol nl ++ Y).
+      { intros Y. cbn [text]. fold raw. norm_app. reflexivity. }
       apply lift_flush; [exact I| |].
       { rewrite file_text_cons, Etxt. destruct cs as [|c1 cs1]; [exact C2|].
         apply head_ctext; [discriminate|exact Hcs]. }
@@ -473,22 +527,27 @@ Proof.
       assert (Hl : a = [] -> contains s_License (comment_val (COffset 1) (cbody cs)) = false).
       { intros Ea. specialize (Hlic Ea eq_refl). simpl in Hlic. apply negb_true_iff in Hlic.
         exact Hlic. }
-      pose proof (gn_entity a cs c0 ktl b1 sc b2 raw (file_text rest) Hcs Hk Hs Hr Hl) as G.
-      cbv zeta in G. simpl ents. rewrite !Nat.add_0_r. simpl length.
+      assert (HT : tail_ok (eol nl ++ file_text rest)).
+      { destruct nl; [right; eexists; reflexivity|]. simpl in Hnl.
+        destruct rest; [left; reflexivity|discriminate]. }
+      assert (Hew : forallb (fun c => mem c WS) (eol nl) = true) by (destruct nl; reflexivity).
+      pose proof (gn_entity a cs c0 ktl b1 sc b2 conts lastl (eol nl ++ file_text rest)
+                    Hcs Hk Hs Hr HT Hl) as G.
+      cbv zeta in G. fold raw in G. simpl ents. fold raw. rewrite !Nat.add_0_r. simpl length.
       set (k := length a + length (ctext cs)) in *.
       set (v := k + S (length ktl) + length b1 + 1 + length b2) in *.
       rewrite <- G. apply walk_step.
       * rewrite !app_length. simpl. rewrite !app_length. simpl. rewrite !app_length. simpl. lia.
       * rewrite G. cbn [e_span snd].
         set (A0 := a ++ ctext cs ++ c0 :: ktl ++ b1 ++ sc :: b2 ++ raw).
-        assert (Hs2 : a ++ ctext cs ++ c0 :: ktl ++ b1 ++ sc :: b2 ++ raw ++ 10%N :: file_text rest
-                      = A0 ++ [10%N] ++ file_text rest).
+        assert (Hs2 : a ++ ctext cs ++ c0 :: ktl ++ b1 ++ sc :: b2 ++ raw ++ eol nl ++ file_text rest
+                      = A0 ++ eol nl ++ file_text rest).
         { unfold A0. norm_app. reflexivity. }
         assert (El : v + length raw = length A0).
         { unfold A0, v, k. rewrite !app_length. simpl. rewrite !app_length. simpl.
           rewrite !app_length. lia. }
-        rewrite Hs2, El. change 1 with (length [10%N]).
-        apply (IH Hrest Hsep); [reflexivity| |].
+        rewrite Hs2, El.
+        apply (IH Hrest Hsep); [exact Hew| |].
         -- intros E. unfold A0 in E. apply app_eq_nil in E. destruct E as [_ E].
            apply app_eq_nil in E. destruct E as [_ E]. discriminate.
         -- assert (Hlt : length a < length A0) by (rewrite <- El; unfold v, k; lia).
@@ -513,8 +572,8 @@ Definition record := (str * str * option str)%type.
 Fixpoint records_of (bs : list block) : list record :=
   match bs with
   | [] => []
-  | BEntity cs key _ _ _ raw :: rest =>
-      (key, raw, match cs with [] => None | _ => Some (cbody cs) end) :: records_of rest
+  | BEntity cs key _ _ _ conts lastl _ :: rest =>
+      (key, vraw conts lastl, match cs with [] => None | _ => Some (cbody cs) end) :: records_of rest
   | _ :: rest => records_of rest
   end.
 
@@ -552,7 +611,7 @@ Proof.
   induction bs as [|b rest IH]; intros Hleg a w s.
   - simpl ents. rewrite !flush_no by discriminate. repeat split.
   - inversion Hleg as [|b' rest' Hb Hrest]; subst b' rest'. specialize (IH Hrest).
-    destruct b as [x|cs|cs key b1 sc b2 raw].
+    destruct b as [x|cs|cs key b1 sc b2 conts lastl nl].
     + assert (Hs : s = a ++ (w ++ x) ++ file_text rest).
       { unfold s. rewrite file_text_cons. cbn [text]. rewrite <- app_assoc. reflexivity. }
       simpl ents. rewrite <- app_length, Hs. apply IH.
@@ -573,26 +632,26 @@ Proof.
       assert (Hs' : s = (a ++ w) ++ cbody cs ++ [10%N] ++ file_text rest)
         by (rewrite Hs; unfold A0; norm_app; reflexivity).
       unfold span_text. cbn [fst snd]. rewrite <- El, <- app_length, Hs'. apply slice_mid.
-    + set (K0 := a ++ w ++ ctext cs).
+    + set (raw := vraw conts lastl).
+      set (K0 := a ++ w ++ ctext cs).
       set (V0 := K0 ++ key ++ b1 ++ sc :: b2).
       set (A0 := V0 ++ raw).
-      assert (Hs : s = A0 ++ [10%N] ++ file_text rest).
-      { unfold s, A0, V0, K0. rewrite file_text_cons. cbn [text]. norm_app. reflexivity. }
+      assert (Hs : s = A0 ++ eol nl ++ file_text rest).
+      { unfold s, A0, V0, K0. rewrite file_text_cons. cbn [text]. fold raw. norm_app. reflexivity. }
       assert (Ek : length a + length w + length (ctext cs) = length K0)
         by (unfold K0; rewrite !app_length; lia).
       assert (Ev : length K0 + length key + length b1 + 1 + length b2 = length V0).
       { unfold V0. rewrite !app_length. simpl. rewrite ?app_length. lia. }
       assert (Ee : length V0 + length raw = length A0) by (unfold A0; rewrite app_length; lia).
-      destruct (IH A0 [10%N]) as [I1 [I2 I3]]. rewrite <- Hs in I1, I2.
-      change (length [10%N]) with 1 in I1, I2, I3.
-      simpl ents. rewrite !filter_app, !flush_no by discriminate. rewrite Ek, Ev, Ee.
+      destruct (IH A0 (eol nl)) as [I1 [I2 I3]]. rewrite <- Hs in I1, I2.
+      simpl ents. fold raw. rewrite !filter_app, !flush_no by discriminate. rewrite Ek, Ev, Ee.
       cbn [app filter is_kind e_kind map]. rewrite I1, I2, I3.
-      split; [|split; reflexivity]. cbn [records_of]. f_equal. unfold entity_record. cbn [e_key e_val e_pre opt_text].
+      split; [|split; reflexivity]. cbn [records_of]. fold raw. f_equal. unfold entity_record. cbn [e_key e_val e_pre opt_text].
       unfold span_text. cbn [fst snd].
       assert (S1 : slice s (length K0) (length K0 + length key) = key).
-      { unfold s. rewrite file_text_cons. cbn [text].
-        replace (a ++ w ++ (ctext cs ++ key ++ b1 ++ sc :: b2 ++ raw ++ [10%N]) ++ file_text rest)
-          with (K0 ++ key ++ (b1 ++ sc :: b2 ++ raw ++ [10%N]) ++ file_text rest)
+      { unfold s. rewrite file_text_cons. cbn [text]. fold raw.
+        replace (a ++ w ++ (ctext cs ++ key ++ b1 ++ sc :: b2 ++ raw ++ eol nl) ++ file_text rest)
+          with (K0 ++ key ++ (b1 ++ sc :: b2 ++ raw ++ eol nl) ++ file_text rest)
           by (unfold K0; norm_app; reflexivity).
         apply slice_mid. }
       assert (S2 : slice s (length V0) (length A0) = raw).
@@ -604,9 +663,9 @@ Proof.
       cbn [option_map]. f_equal. cbn [fst snd].
       assert (Ec : length K0 - 1 = length (a ++ w) + length (cbody cs)).
       { rewrite <- Ek, (ctext_body cs Hne), !app_length. simpl. lia. }
-      rewrite <- app_length, Ec. unfold s. rewrite file_text_cons. cbn [text].
-      replace (a ++ w ++ (ctext cs ++ key ++ b1 ++ sc :: b2 ++ raw ++ [10%N]) ++ file_text rest)
-        with ((a ++ w) ++ cbody cs ++ [10%N] ++ (key ++ b1 ++ sc :: b2 ++ raw ++ [10%N]) ++ file_text rest)
+      rewrite <- app_length, Ec. unfold s. rewrite file_text_cons. cbn [text]. fold raw.
+      replace (a ++ w ++ (ctext cs ++ key ++ b1 ++ sc :: b2 ++ raw ++ eol nl) ++ file_text rest)
+        with ((a ++ w) ++ cbody cs ++ [10%N] ++ (key ++ b1 ++ sc :: b2 ++ raw ++ eol nl) ++ file_text rest)
         by (rewrite (ctext_body cs Hne); norm_app; reflexivity).
       apply slice_mid.
 Qed.
